@@ -128,6 +128,13 @@ def run_check(prop, spec, tier, seed, replay=None):
     for j, res in results:
         col.procs += 1
         done, dctx, deathreplay = col.add_stdout(res)
+        # TSan reports (non-fatal, collected from the log files) - also for processes that ended with an oracle violation
+        if j['variant'] == 'tsan':
+            reps = core.parse_tsan(res.tsan_logs)
+            col.tsan_reports += len(reps)
+            for k, kind, blk in reps:
+                e = tsan_seen.setdefault(k, dict(tags=set(), blk=blk, kind=kind, job=j, res=res))
+                e['tags'].add(res.tag)
         if j.get('rec'):
             rp = os.path.join(logdir, 'rec.%s.txt' % res.tag)
             if os.path.exists(rp):
@@ -159,13 +166,6 @@ def run_check(prop, spec, tier, seed, replay=None):
                 body += '\n--- harness history ---\n' + open(deathreplay, errors='replace').read()[-200000:]
             rp = core.write_replay('%s.%s.death.txt' % (prop, res.tag), body)
             violations.append((key, rp, '%s %s' % (kind, detail)))
-        # TSan reports (non-fatal, collected from the log files)
-        if j['variant'] == 'tsan':
-            reps = core.parse_tsan(res.tsan_logs)
-            col.tsan_reports += len(reps)
-            for k, kind, blk in reps:
-                e = tsan_seen.setdefault(k, dict(tags=set(), blk=blk, kind=kind, job=j, res=res))
-                e['tags'].add(res.tag)
     # A TSan report counts as a violation only when it is reproducible: seen in >= 2 independent processes of this run, or again in one of up to
     # 3 re-runs of the reporting shard. (The volatile-as-atomic annotation is called just *before* the annotated load executes; a thread preempted in
     # that few-ns window can produce a one-off report on correctly synchronised code. A genuinely missing synchronisation recurs.) Unconfirmed
